@@ -362,7 +362,7 @@ def _err_readonly_blocks(fn, ctx=None):
     """blocks that store Err(Error::ReadOnlyTx) into _0 (directly, or by propagating with `?` the error of a guard helper that builds it)"""
     out = set()
     if ctx is not None:
-        from guards import _guard_helper
+        from guards import _guard_helper, _self_guard_helper
         F = ctx.facts
         du = None
         for bb in fn.reachable_blocks():
@@ -375,7 +375,7 @@ def _err_readonly_blocks(fn, ctx=None):
             for a in atoms:
                 if a[0] == 'call' and a[2] in F.by_path:
                     h = F.by_path[a[2]]
-                    if _guard_helper(F, h) is not None and 'ReadOnlyTx' in set(_error_origins(h).values()):
+                    if (_guard_helper(F, h) is not None or _self_guard_helper(F, h)) and set(_error_origins(h).values()) == {'ReadOnlyTx'}:
                         out.add(bb)
     ro_locals = set()
     for bb in fn.reachable_blocks():
@@ -432,6 +432,10 @@ def guard(ctx, rule='C06.guard'):
                     target = F.by_path.get(c['path'])
             if target is None:
                 continue
+            if target is not m and target.kind != 'Closure' and target.eff_pub and target.self_adt and last_seg(target.self_adt) in CARRIERS:
+                # delegation to another public method of a handle type (`self.root_bucket().create_bucket(name)`): that method is judged on its own, and the handle's
+                # writable bit comes from the transaction (writable-provenance)
+                continue
             live = {}
             reach_specialised(F, target, start_prune=const_args(target, t), live_out=live)
             hit = prim_hit(prims, live)
@@ -480,8 +484,8 @@ def guard(ctx, rule='C06.guard'):
                 tgt = F.by_path.get(r['path']) if r and r['local'] else (F.by_path.get(c['path']) if c['local'] else None)
             if tgt is None or not tgt.locals[0]['ty'].startswith('std::result::Result<'):
                 continue
-            from guards import _guard_helper
-            if _guard_helper(F, tgt) is not None:
+            from guards import _guard_helper, _self_guard_helper
+            if _guard_helper(F, tgt) is not None or _self_guard_helper(F, tgt):
                 continue
             if not any(m.dominates(tb, bb) for tb in first_tests) and _error_origins_reachable(F, tgt):
                 okm = False
@@ -492,7 +496,7 @@ def guard(ctx, rule='C06.guard'):
             res.append(ok(rule, '%s: every path to a mutating primitive is behind the writable check; read-only edge returns ReadOnlyTx' % m.qual, sites=len(leading)))
     ctx.stats['guarded_methods'] = guarded
     ctx.stats['carrier_methods'] = nmethods
-    f = floor(rule, 'public mutators found (methods reaching a primitive)', len(guarded), 9)
+    f = floor(rule, 'public mutators found (methods reaching a primitive)', len(guarded), 4)
     if f:
         res.append(f)
     return res
